@@ -493,15 +493,18 @@ def powerDiffReached (p : Params) (delta : Nat) : Bool :=
   let rounded := (delta * 10 ^ 8 * 2 + maxU32) / (2 * maxU32)
   rounded * 10 ^ 10 ≥ min p.pct dec
 
+/-- `isNeedOracleSetRequest` -/
+def needOracleSet (s : State) (h : Nat) (cur : List (Nat × Nat)) : Bool :=
+  match s.osets.find? (fun x => x.nonce == s.latestNonce) with
+  | none => true
+  | some latest => s.lastSlashHeight == h || powerDiffReached s.p (powerDelta cur latest.members)
+
 /-- `createOracleSetRequest` -/
 def createOracleSetRequest (s : State) (h : Nat) : Except String State :=
   match currentMembers s with
   | .error e => .error e
   | .ok cur =>
-    let need := match s.osets.find? (fun x => x.nonce == s.latestNonce) with
-      | none => true
-      | some latest => s.lastSlashHeight == h || powerDiffReached s.p (powerDelta cur latest.members)
-    if need && !cur.isEmpty then
+    if needOracleSet s h cur && !cur.isEmpty then
       .ok (refreshPower { s with osets := s.osets ++ [⟨s.latestNonce + 1, h, cur⟩], latestNonce := s.latestNonce + 1 })
     else .ok s
 
